@@ -35,6 +35,7 @@ def dispatch (op : String) : Option (RM Res) :=
   | "h_dense" => some opHDense
   | "plan" => some opPlan
   | "plan_sched" => some opPlanSched
+  | "plan_exists" => some opPlanExists
   | "h_rrt" => some opHRrt
   | "rrt" => some opRrt
   | "rrt_cancel" => some opRrtCancel
